@@ -9,6 +9,7 @@ argument.  Judged by field-wise bit-level fingerprints of the labelled content.
 import copy
 import importlib
 import inspect
+import itertools
 import os
 import pkgutil
 import shutil
@@ -32,7 +33,7 @@ ASSUMPTIONS = ['pure accessors that by their documentation hand out the internal
                'to_dict, get_measurements-like views) are judged for "does not modify" but not for independence '
                '(they do not return a new object)',
                'documented in-place operations (reorder, sort_by, append, Dataset.sort_by) are mutators, not producers',
-               'the library-managed "index" descriptors are excluded from fingerprints']
+               'the "index" descriptors of objects are part of their fingerprints (only a plain dict handed to a constructor is not fingerprinted)']
 BOUNDS = {'quick': {'variants': 4}, 'thorough': {'variants': 4, 'extra_arg_menus': True}}
 
 CONTAINERS = {'RDMs', 'Dataset', 'DatasetBase', 'TemporalDataset', 'Result', 'ModelFamily', 'Fitter'}
@@ -388,13 +389,16 @@ def plan(qual, kind, owner, fn, variant, seed, opt=None):
     if kind == 'class' and base in ('Model',):
         return None, 'abstract'
     menu = _option_menu(base, variant, seed) if opt else {}
+    # opt is one [name, k] or a pair [[name1, k1], [name2, k2]] of optional parameters set together
+    opts = {} if not opt else (dict(map(tuple, opt)) if isinstance(opt[0], (list, tuple)) else {opt[0]: opt[1]})
     for p in params:
-        if opt and p.name == opt[0]:
-            facts.append((p.name, menu[p.name][opt[1]]))
-            if p.name == 'pattern_idx' and 'pattern_descriptor' in [q.name for q in params]:
+        if p.name in opts:
+            facts.append((p.name, menu[p.name][opts[p.name]]))
+            if p.name == 'pattern_idx' and 'pattern_descriptor' in [q.name for q in params] \
+                    and 'pattern_descriptor' not in opts:
                 facts.append(('pattern_descriptor', lambda: 'index'))
             continue
-        if opt and opt[0] == 'pattern_idx' and p.name == 'pattern_descriptor':
+        if 'pattern_idx' in opts and p.name == 'pattern_descriptor':
             continue
         if p.kind in (p.VAR_POSITIONAL, p.VAR_KEYWORD):
             if base == 'concat':
@@ -430,8 +434,6 @@ def plan(qual, kind, owner, fn, variant, seed, opt=None):
 
 # ----------------------------------------------------------------------------- fingerprints & mutators
 def _strip_index(d):
-    if isinstance(d, dict):
-        return {k: v for k, v in d.items() if k != 'index'}
     return d
 
 
@@ -553,9 +555,18 @@ def shards(tier, seed):
         for v in VARIANTS:
             out.append({'qual': qual, 'kind': kind, 'variant': list(v)})
         # one optional parameter changed at a time (list-descriptor variants; thorough: all four)
-        for opt in option_variants(qual, kind, owner, fn):
+        ov = option_variants(qual, kind, owner, fn)
+        for opt in ov:
             for v in (VARIANTS if tier == 'thorough' else VARIANTS[:1] + VARIANTS[2:3]):
                 out.append({'qual': qual, 'kind': kind, 'variant': list(v), 'opt': opt})
+        # two optional parameters changed together (a step taken only for one combination of
+        # options, e.g. a fold descriptor that is only generated for cross-validated methods when
+        # a condition descriptor is given); quick: list-descriptor variant
+        for a_, b_ in itertools.combinations(ov, 2):
+            if a_[0] == b_[0]:
+                continue
+            for v in (VARIANTS if tier == 'thorough' else VARIANTS[:1]):
+                out.append({'qual': qual, 'kind': kind, 'variant': list(v), 'opt': [a_, b_]})
     out.append({'qual': '__coverage__', 'kind': 'meta', 'variant': ['list', False]})
     return out
 
@@ -625,7 +636,9 @@ def run_case(case, ctx):
     for ti, (tpath, tobj) in enumerate(res_targets):
         for mname, _ in mutators_for(tobj):
             try:
-                named, res, before, _ = _call(make_call, ctx, qual, case)
+                # baseline = the arguments as the call left them (a change made by the call itself
+                # is the 'mutates' finding of step 1, not an alias)
+                named, res, _, before = _call(make_call, ctx, qual, case)
             except Exception:
                 ctx.count('inapplicable-arguments')
                 continue
